@@ -505,3 +505,89 @@ def pair_model(draw, max_pots=4, depth=2, max_tables=1, pycallables=False, min_p
             pd = tag(pd)
         pair.append([a, b, pd])
     return {"env": {"custom": customs, "table": tables}, "pair": pair, "species": species}
+
+
+# hard-coded cross-check table (atomic number exact, mass to 0.5 %)
+ELEMENT_TABLE = {"Al": (13, 26.98), "Cu": (29, 63.55), "Ni": (28, 58.69), "Fe": (26, 55.85), "O": (8, 16.00),
+                 "U": (92, 238.03), "Si": (14, 28.09), "Mg": (12, 24.31), "Gd": (64, 157.25), "Ce": (58, 140.12),
+                 "Ag": (47, 107.87), "Zr": (40, 91.22), "H": (1, 1.008), "Xe": (54, 131.29)}
+LATTICES = ["fcc", "bcc", "hcp", "sc", "dia"]
+
+
+def eam_grid(nmax=24):
+    small = st.integers(2, 8)
+    return st.fixed_dictionaries({
+        "nr": st.one_of(small, st.integers(2, nmax)), "cutoff": st.one_of(st.sampled_from([1.0, 5.0, 6.5]), fl(0.5, 12.0)),
+        "nrho": st.one_of(small, st.integers(2, nmax)), "cutoff_rho": st.one_of(st.sampled_from([1.0, 50.0, 100.0]), fl(0.5, 200.0))})
+
+
+@st.composite
+def eam_model(draw, kind="eam", n_min=1, n_max=4, depth=1, pycallables=False):
+    """EAM ("eam"), Finnis-Sinclair ("fs") or ADP ("adp") model.
+    {"kind", "env", "elements": [...] (embedding declaration order), "embed": [[A, pd]],
+     "density": [[A, pd]] | "density_fs": [[A, B, pd]], "pair": [[A, B, pd]],
+     "dipole"/"quadrupole": [[A, B, pd]], "species": [[label, prop, value]], "grid": {...}}
+    Any subset of pairs / FS densities may be undeclared; pairs may name foreign species."""
+    customs = draw(custom_forms(1, 1))
+    n = draw(st.integers(n_min, n_max))
+    els = draw(st.lists(st.sampled_from(ELEMENTS + INVENTED), min_size=n, max_size=n, unique=True))
+    pdraw = potdef(depth, customs, [], max_ranges=2)
+    p0 = potdef(0, customs, [], max_ranges=2)
+
+    def pot():
+        pd = draw(st.one_of(p0, p0, pdraw))
+        return pd
+    m = {"kind": kind, "env": {"custom": customs, "table": []}, "elements": els}
+    # under-specified models: an element needs only an embedding OR a density entry; the other is zero-filled
+    drop = draw(st.lists(st.sampled_from(["none", "none", "none", "embed", "density"]), min_size=n, max_size=n))
+    if all(d == "embed" for d in drop):
+        drop[0] = "none"
+    m["embed"] = [[a, pot()] for a, d in zip(els, drop) if d != "embed"]
+    if kind == "fs":
+        dens = []
+        for a in draw(st.permutations(els)):
+            for b in draw(st.permutations(els)):
+                if draw(st.integers(0, 5)) > 0:          # ~1/6 left undeclared
+                    dens.append([a, b, pot()])
+        missing = [a for a, d in zip(els, drop) if d == "embed" and not any(a in (x[0], x[1]) for x in dens)]
+        for a in missing:
+            dens.append([a, a, pot()])
+        if not dens:
+            dens.append([els[0], els[0], pot()])
+        m["density_fs"] = list(draw(st.permutations(dens)))
+    else:
+        keep = [a for a, d in zip(els, drop) if d != "density"]
+        if not keep:
+            keep = [els[0]]
+        m["density"] = [[a, pot()] for a in draw(st.permutations(keep))]
+
+    def pairlike(allow_foreign):
+        out = []
+        allp = [(a, b) for i, a in enumerate(els) for b in els[i:]]
+        for a, b in draw(st.permutations(allp)):
+            if draw(st.integers(0, 3)) > 0:             # ~1/4 undeclared
+                if draw(st.booleans()):
+                    a, b = b, a
+                out.append([a, b, pot()])
+        if allow_foreign and draw(st.integers(0, 4)) == 0:
+            out.append([els[0], "Zq", pot()])
+        return out
+    m["pair"] = pairlike(True)
+    if kind == "adp":
+        m["dipole"] = pairlike(False)
+        m["quadrupole"] = pairlike(False)
+    # [Species]: invented labels need atomic number and mass; anything may be overridden
+    sp = []
+    for e in els:
+        invented = e not in ELEMENT_TABLE
+        if invented or draw(st.integers(0, 2)) == 0:
+            sp.append([e, "atomic_number", draw(st.integers(1, 118))])
+        if invented or draw(st.integers(0, 2)) == 0:
+            sp.append([e, "atomic_mass", draw(fl(1.0, 250.0))])
+        if draw(st.integers(0, 2)) == 0:
+            sp.append([e, "lattice_constant", draw(fl(2.0, 6.0))])
+        if draw(st.integers(0, 2)) == 0:
+            sp.append([e, "lattice_type", draw(st.sampled_from(LATTICES))])
+    m["species"] = list(draw(st.permutations(sp))) if sp else []
+    m["grid"] = draw(eam_grid())
+    return m
